@@ -1,5 +1,6 @@
 (* C12 — reset restores the initial machine exactly. *)
 From Lace Require Import Word Machine Isa Vm Asm Dbg DbgProofs.
+From Lace Require Examples.
 Open Scope N_scope.
 
 (** `reset` puts every register, the PC, the condition code, the origin and all 65,536 memory words
@@ -29,3 +30,11 @@ Theorem C12_initial_const_step : forall env script c d st,
   d_init (tick_dbg (tick env script d st)) = d_init d.
 Proof. intros. split; [apply run_command_init|apply tick_init]. Qed.
 Print Assumptions C12_initial_const_step.
+
+(** Non-vacuity: a session (step, move, reset, exit) that ends attached: the hypothesis of
+    C12_initial_const holds and the saved initial state is the loaded one. *)
+Example C12_nonvacuous :
+  exists dd, sr_dbg (session Examples.ex_env 50 (CStepOver :: CMove (LReg 3) 7 :: CReset :: CExit :: nil)
+                             (Examples.ex_dbg nil) Examples.ex_state 0 0 0) = Some dd /\
+             d_init dd = Examples.ex_state.
+Proof. exact Examples.ex_attached_end. Qed.
